@@ -110,7 +110,8 @@ fn gain(engine0: &Engine, rng: &mut Rng, corpus: &Corpus, evs: &mut Vec<Value>) 
     engine.condition.set_volume(0.0);
     let w0 = engine.synthesize(&lines[..]).map_err(|e| e.to_string())?;
     let t0 = trajectories(&engine, &lines)?;
-    if w0.iter().any(|x| !x.is_finite()) || w0.iter().all(|x| *x == 0.0) {
+    // a pure gain of up to 60 dB must stay representable: skip runaway waveforms (outside the stable range) and silence
+    if w0.iter().any(|x| !x.is_finite() || x.abs() > 1e200) || w0.iter().all(|x| x.abs() < 1e-200) {
         return Ok(());
     }
     let (imax, _) = w0.iter().enumerate().fold((0, 0.0f64), |(i, m), (j, x)| if x.abs() > m { (j, x.abs()) } else { (i, m) });
@@ -217,6 +218,47 @@ fn gv_none(engine0: &Engine, corpus: &Corpus, evs: &mut Vec<Value>) -> Result<()
     Ok(())
 }
 
+/// voicing of a voice SET: the decisive weight is the interpolated one (per-voice weights are public via get_parameter)
+fn mix_voicing(paths: &[String], rng: &mut Rng, corpus: &Corpus, evs: &mut Vec<Value>) -> Result<(), String> {
+    let nv = 2 + rng.below(paths.len().min(3) - 1);
+    let sel: Vec<String> = (0..nv).map(|i| paths[(i + rng.below(paths.len())) % paths.len()].clone()).collect();
+    let mut engine = Engine::load(&sel).map_err(|e| e.to_string())?;
+    // weights in 64ths, sometimes left at the default average (only if it is a multiple of 1/64)
+    let mut k = vec![0i64; nv];
+    if nv == 2 && rng.chance(0.3) {
+        k = vec![32, 32];
+    } else {
+        let mut rest = 64;
+        for v in 0..nv - 1 {
+            k[v] = rng.range(0, rest);
+            rest -= k[v];
+        }
+        k[nv - 1] = rest;
+        let w: Vec<f64> = k.iter().map(|x| *x as f64 / 64.0).collect();
+        engine.condition.get_interporation_weight_mut().set_parameter(1, &w).map_err(|e| e.to_string())?;
+    }
+    let thr = (rng.below(1025) as f32) / 1024.0;
+    engine.condition.set_msd_threshold(1, thr as f64);
+    let nl = 2 + rng.below(6);
+    let lines = corpus.utterance(rng, nl);
+    let labels = parse_all(&lines);
+    let nstate = engine.voices.global_metadata().num_states;
+    let dur = durations(&engine, &labels);
+    let mut msdq: Vec<Vec<i64>> = Vec::new();
+    for label in &labels {
+        for st in 0..nstate {
+            msdq.push(engine.voices.iter().map(|v| {
+                let p = v.stream_models[1].stream_model.get_parameter(st + 2, label);
+                (p.msd.unwrap_or(0.0) * 1048576.0).round() as i64
+            }).collect());
+        }
+    }
+    let (_, lf0, _) = trajectories(&engine, &lines)?;
+    let nodata: Vec<bool> = lf0.iter().map(|f| f[0] == NODATA).collect();
+    evs.push(json!({"ev": "mixvoicing", "k": k, "msdq": msdq, "thrq": ((thr as f64) * 1048576.0).round() as i64, "dur": dur, "nodata": nodata}));
+    Ok(())
+}
+
 pub fn record(mode: &str, seed: u64, n: usize, out_path: &str, paths: &[String]) {
     let corpus = Corpus::load();
     let engines: Vec<Engine> = paths.iter().map(|p| Engine::load(&[p]).unwrap_or_else(|e| die(&format!("{}: {}", p, e)))).collect();
@@ -226,7 +268,12 @@ pub fn record(mode: &str, seed: u64, n: usize, out_path: &str, paths: &[String])
         let engine = &engines[*it % engines.len()];
         let mut evs = Vec::new();
         let r = guarded(|| match mode {
-            "voicing" => voicing(engine, &mut rng, &corpus, &mut evs),
+            "voicing" => {
+                if paths.len() >= 2 {
+                    mix_voicing(paths, &mut rng, &corpus, &mut evs)?;
+                }
+                voicing(engine, &mut rng, &corpus, &mut evs)
+            }
             "halftone" => halftone(engine, &mut rng, &corpus, &mut evs),
             "gain" => gain(engine, &mut rng, &corpus, &mut evs),
             "gv" => {
